@@ -18,6 +18,9 @@ int __real_sem_post(sem_t*);
 int __real_sem_wait(sem_t*);
 int __real_clock_gettime(clockid_t, struct timespec*);
 int __real_usleep(useconds_t);
+int __real_nanosleep(const struct timespec*, struct timespec*);
+int __real_clock_nanosleep(clockid_t, int, const struct timespec*, struct timespec*);
+int __wrap_sem_timedwait(sem_t*, const struct timespec*);
 int __real_sched_yield(void);
 int __real_pthread_mutex_init(pthread_mutex_t*, const pthread_mutexattr_t*);
 int __real_pthread_mutexattr_init(pthread_mutexattr_t*);
@@ -340,8 +343,31 @@ int __wrap_usleep(useconds_t us) {
   blockHere(); th[me].wait = W_NONE; th[me].deadline = -1; th[me].timedOut = false;
   return 0;
 }
+// every wall / monotonic clock of the process is the one virtual clock (CPU-time clocks stay real)
+static inline bool isTimeClock(clockid_t id) {
+  return id == CLOCK_REALTIME || id == CLOCK_MONOTONIC || id == CLOCK_MONOTONIC_RAW || id == CLOCK_REALTIME_COARSE || id == CLOCK_MONOTONIC_COARSE || id == CLOCK_BOOTTIME;
+}
+// other ways to sleep and to wait with a deadline that an implementation may choose: all in virtual time
+int __wrap_nanosleep(const struct timespec* req, struct timespec* rem) {
+  if (!g_active || tl_id < 0) return __real_nanosleep(req, rem);
+  long long ns = (long long)req->tv_sec * 1000000000LL + req->tv_nsec;
+  int me = tl_id; th[me].state = T_BLOCKED; th[me].wait = W_SLEEP; th[me].deadline = vclock + ns; th[me].timedOut = false;
+  blockHere(); th[me].wait = W_NONE; th[me].deadline = -1; th[me].timedOut = false;
+  if (rem) { rem->tv_sec = 0; rem->tv_nsec = 0; }
+  return 0;
+}
+int __wrap_clock_nanosleep(clockid_t id, int flags, const struct timespec* req, struct timespec* rem) {
+  if (!g_active || tl_id < 0 || !isTimeClock(id)) return __real_clock_nanosleep(id, flags, req, rem);
+  if (flags & TIMER_ABSTIME) { long long dl = toNs(req); int me = tl_id; if (dl > vclock) { th[me].state = T_BLOCKED; th[me].wait = W_SLEEP; th[me].deadline = dl; th[me].timedOut = false; blockHere(); th[me].wait = W_NONE; th[me].deadline = -1; th[me].timedOut = false; } return 0; }
+  return __wrap_nanosleep(req, rem);
+}
+int __wrap_pthread_cond_clockwait(pthread_cond_t* c, pthread_mutex_t* m, clockid_t, const struct timespec* ts) {
+  if (!g_active || tl_id < 0) return __real_pthread_cond_timedwait(c, m, ts);
+  return condWait(c, m, ts);
+}
+int __wrap_sem_clockwait(sem_t* s, clockid_t, const struct timespec* ts) { if (!g_active || tl_id < 0) return __real_sem_timedwait(s, ts); return __wrap_sem_timedwait(s, ts); }
 int __wrap_clock_gettime(clockid_t id, struct timespec* ts) {
-  if (!g_active || tl_id < 0 || (id != CLOCK_REALTIME && id != CLOCK_MONOTONIC)) return __real_clock_gettime(id, ts);
+  if (!g_active || tl_id < 0 || !isTimeClock(id)) return __real_clock_gettime(id, ts);
   vclock += 1000;  // reading the clock takes a microsecond of virtual time (busy waits on the clock make progress)
   long long t = vclock; ts->tv_sec = (time_t)(EPOCH_S + t / 1000000000LL); ts->tv_nsec = (long)(t % 1000000000LL);
   return 0;
